@@ -214,13 +214,16 @@ class ImageFormation(HoloPyObject):
         return point_or_flat
 
     def _transform_to_desired_coordinates(self, detector, origin, wavevec=1):
-        if hasattr(detector, 'theta') and hasattr(detector, 'phi'):
+        # (not hasattr: that would also find metadata of these names in attrs)
+        if 'theta' in detector.coords and 'phi' in detector.coords:
             original_coordinate_system = 'spherical'
             original_coordinate_values = [
-                (detector.r.values * wavevec if hasattr(detector, 'r')
-                    else np.full(detector.theta.values.shape, np.inf)),
-                detector.theta.values,
-                detector.phi.values,
+                (detector.coords['r'].values * wavevec
+                    if 'r' in detector.coords
+                    else np.full(detector.coords['theta'].values.shape,
+                                 np.inf)),
+                detector.coords['theta'].values,
+                detector.coords['phi'].values,
                 ]
         else:
             original_coordinate_system = 'cartesian'
